@@ -58,18 +58,22 @@ fn replay(args: &[String]) -> i32 {
     let mut wr = BufWriter::new(std::fs::File::create(&out).expect("create output"));
     let mut nbeh = 0u64;
     let mut nsteps = 0u64;
+    let share_pairs = args.iter().any(|a| a == "--share-pairs");
+    let mut lines: Vec<(usize, Value)> = vec![];
     for (ln, line) in rd.lines().enumerate() {
         let line = line.expect("read");
         if line.trim().is_empty() {
             continue;
         }
-        let v: Value = match serde_json::from_str(&line) {
-            Ok(v) => v,
+        match serde_json::from_str::<Value>(&line) {
+            Ok(v) => lines.push((ln, v)),
             Err(e) => {
                 eprintln!("bad behaviour line {ln}: {e}");
                 return 2;
             }
-        };
+        }
+    }
+    let mk = |ln: usize, v: &Value, share: Option<model::Shared>| -> Result<(Session, Vec<Value>, Value, PathBuf), String> {
         let (ops, meta) = if v.is_array() {
             (v.as_array().cloned().unwrap_or_default(), json!({}))
         } else {
@@ -90,53 +94,89 @@ fn replay(args: &[String]) -> i32 {
         let blob = if meta.get("blob").is_some() { blob_from(&meta["blob"]) } else { blob_from(&def_blob) };
         let dir = PathBuf::from(&scratch).join(format!("b{ln}"));
         let rules = filter::parse_rules(&meta["filter"]);
-        let mut sess = match Session::new(dir.clone(), conc.clone(), phys.clone(), blob.clone(), nkeys, rules) {
-            Ok(s) => s,
-            Err(e) => {
-                eprintln!("cannot create tree: {e}");
-                return 2;
-            }
-        };
+        let sess = Session::new(dir.clone(), conc.clone(), phys.clone(), blob.clone(), nkeys, rules, share)?;
         let reset = json!({"op": {"op": "reset", "beh": meta.get("id").cloned().unwrap_or(json!(ln)),
             "phys": phys.describe(), "key_alpha": conc.key_alpha, "val_alpha": conc.val_alpha,
             "blob": blob.is_some(), "filter": meta.get("filter").cloned().unwrap_or(json!([])),
+            "shared": share_pairs,
             "big": blob.as_ref().map_or(vec![], |b| (1..=6000i64).filter(|v| conc.val_len(*v) >= b.threshold as usize).collect::<Vec<_>>())},
             "ret": "ok", "rk": "ok", "ro": false, "info": {}, "st": sess.project(), "obs": sess.observe()});
-        writeln!(wr, "{reset}").expect("write");
-        nbeh += 1;
-        for op in &ops {
-            let op = &sess.concretise_op(op);
-            let (ret, info) = sess.exec(op);
-            let skip = ret.starts_with("skip:");
-            let dead = sess.tree.is_none();
-            let readonly = op["op"].as_str() == Some("scan");
-            let mut dead = dead;
-            let (st, obs) = if dead {
-                (Value::Null, Value::Null)
-            } else if readonly {
-                (json!({}), json!({}))
-            } else {
-                // a panic inside the tree may leave its locks poisoned: the tree is then unusable
-                match std::panic::catch_unwind(std::panic::AssertUnwindSafe(|| {
-                    (sess.project(), sess.observe())
-                })) {
-                    Ok(x) => x,
-                    Err(_) => {
-                        dead = true;
-                        (Value::Null, Value::Null)
-                    }
+        Ok((sess, ops, reset, dir))
+    };
+    // one step of a behaviour; returns (record, stop)
+    let step = |sess: &mut Session, op: &Value| -> (Value, bool) {
+        let op = &sess.concretise_op(op);
+        let (ret, info) = sess.exec(op);
+        let skip = ret.starts_with("skip:");
+        let mut dead = sess.tree.is_none();
+        let readonly = op["op"].as_str() == Some("scan");
+        let (st, obs) = if dead {
+            (Value::Null, Value::Null)
+        } else if readonly {
+            (json!({}), json!({}))
+        } else {
+            // a panic inside the tree may leave its locks poisoned: the tree is then unusable
+            match std::panic::catch_unwind(std::panic::AssertUnwindSafe(|| {
+                (sess.project(), sess.observe())
+            })) {
+                Ok(x) => x,
+                Err(_) => {
+                    dead = true;
+                    (Value::Null, Value::Null)
                 }
-            };
-            let rk = ret.split(':').next().unwrap_or("").to_string();
-            let rec = json!({"op": op, "ret": ret, "rk": rk, "ro": readonly, "info": info, "st": st, "obs": obs});
-            writeln!(wr, "{rec}").expect("write");
-            nsteps += 1;
-            if skip || dead {
-                break;
+            }
+        };
+        let rk = ret.split(':').next().unwrap_or("").to_string();
+        (json!({"op": op, "ret": ret, "rk": rk, "ro": readonly, "info": info, "st": st, "obs": obs}), skip || dead)
+    };
+    let mut i = 0;
+    while i < lines.len() {
+        let group: Vec<&(usize, Value)> = if share_pairs && i + 1 < lines.len() {
+            vec![&lines[i], &lines[i + 1]]
+        } else {
+            vec![&lines[i]]
+        };
+        i += group.len();
+        let mut sessions = vec![];
+        let mut share: Option<model::Shared> = None;
+        for (ln, v) in &group {
+            match mk(*ln, v, share.clone()) {
+                Ok((sess, ops, reset, dir)) => {
+                    if share_pairs {
+                        share = Some(sess.shared.clone());
+                    }
+                    sessions.push((sess, ops, vec![reset], dir, false));
+                }
+                Err(e) => {
+                    eprintln!("cannot create tree: {e}");
+                    return 2;
+                }
             }
         }
-        drop(sess);
-        let _ = std::fs::remove_dir_all(&dir);
+        // interleave the behaviours of the group step by step (they share cache / fd table)
+        let maxlen = sessions.iter().map(|s| s.1.len()).max().unwrap_or(0);
+        for j in 0..maxlen {
+            for s in &mut sessions {
+                if s.4 || j >= s.1.len() {
+                    continue;
+                }
+                let op = s.1[j].clone();
+                let (rec, stop) = step(&mut s.0, &op);
+                s.2.push(rec);
+                nsteps += 1;
+                if stop {
+                    s.4 = true;
+                }
+            }
+        }
+        for (sess, _, recs, dir, _) in sessions {
+            for r in recs {
+                writeln!(wr, "{r}").expect("write");
+            }
+            nbeh += 1;
+            drop(sess);
+            let _ = std::fs::remove_dir_all(&dir);
+        }
     }
     wr.flush().expect("flush");
     let _ = std::fs::remove_dir_all(&scratch);
